@@ -92,12 +92,8 @@ pub fn x_retain_nonempty(q: &mut Qualifiers)
     ensures final(q).qualifiers@ == nonempty_part(old(q).qualifiers@)
 { unimplemented!() }
 
-// ---- opaque stand-in for the typed checksum value (its own contracts are proved in group `cksum`) ----
-#[verifier::external_body]
-pub struct Checksum<'a> { _p: &'a str }
-impl<'a> Checksum<'a> { pub uninterp spec fn entries(&self) -> Seq<(Seq<char>, Seq<char>)>; }
-
 /// `q.try_get_typed::<Checksum>()`  = `q.get("checksum").map(Checksum::try_from).transpose()`
+/// (ASSUMED composition of Option::map / transpose; Qualifiers::get and Checksum::try_from are verified in groups qual / cksum)
 #[verifier::external_body]
 pub fn x_try_get_typed_checksum<'a>(q: &'a Qualifiers) -> (r: Result<Option<Checksum<'a>>, ParseError>)
     requires wf_seq(q.qualifiers@)
@@ -105,17 +101,8 @@ pub fn x_try_get_typed_checksum<'a>(q: &'a Qualifiers) -> (r: Result<Option<Chec
         !has_key(q.qualifiers@, checksum_key()) ==> r is Ok && r->Ok_0 is None,
         has_key(q.qualifiers@, checksum_key()) ==> match ck_parse(q.qualifiers@[pos_of(q.qualifiers@, checksum_key())].1@) {
             None => r is Err && r->Err_0 == ParseError::InvalidQualifier,
-            Some(es) => r is Ok && r->Ok_0 is Some && r->Ok_0->Some_0.entries() == es,
+            Some(m) => r is Ok && r->Ok_0 is Some && r->Ok_0->Some_0.entries() == m,
         },
-{ unimplemented!() }
-
-/// `SmallString::try_from(checksum)`
-#[verifier::external_body]
-pub fn x_checksum_to_text<'a>(c: Checksum<'a>) -> (r: Result<SmallString, ParseError>)
-    ensures match ck_text(c.entries()) {
-        None => r is Err && r->Err_0 == ParseError::InvalidQualifier,
-        Some(t) => r is Ok && r->Ok_0@ == t,
-    },
 { unimplemented!() }
 
 pub proof fn lemma_checksum_key()
@@ -150,13 +137,13 @@ pub open spec fn build_post<T: PurlShape>(t1: T, p1: PurlParts, fr: Result<(), T
                     r is Ok && same_but_qualifiers(r->Ok_0, t1, p1) && r->Ok_0.parts.qualifiers.qualifiers@ == q2
                 } else {
                     let p = pos_of(q2, checksum_key());
-                    let canon = match ck_parse(q2[p].1@) { None => None, Some(es) => ck_text(es) };
+                    let canon = match ck_parse(q2[p].1@) { None => None, Some(m) => ck_text(m) };
                     match canon {                                                 // a checksum is canonicalised or refused
                         None => r is Err && (conv ==> r->Err_0 == <T::Error as vstd::std_specs::convert::FromSpec<ParseError>>::from_spec(
                             ParseError::InvalidQualifier)),
                         Some(t) => r is Ok && same_but_qualifiers(r->Ok_0, t1, p1)
                             && r->Ok_0.parts.qualifiers.qualifiers@.len() == q2.len()
-                            && r->Ok_0.parts.qualifiers.qualifiers@[p].1@ == t
+                            && r->Ok_0.parts.qualifiers.qualifiers@[p].1@ == t && t.len() > 0
                             && r->Ok_0.parts.qualifiers.qualifiers@ == q2.update(p, (q2[p].0, r->Ok_0.parts.qualifiers.qualifiers@[p].1)),
                     }
                 }
